@@ -1,5 +1,93 @@
 import Sigc.Model
-import Sigc.Spec
-/-! property theorems for C01 (being written) -/
+import Sigc.Lemmas.Basic
+/-!
+# C01 — emission invokes exactly the connected, unblocked slots, once each, in order
+(first theorems; the all-history statements are being proved in Sigc/Lemmas/Emit*.lean)
+-/
 namespace Sigc.C01
+open Sigc.Model
+
+/-- the cell `insert` creates: fresh id, the (copied or moved) slot with a dummy representation if it
+    had none, linked to its `self_and_iter` record -/
+def newCell (s : St) (sl : SlotB) : Cell :=
+  { id := s.next,
+    slot := (match sl.rep with
+      | none => { sl with rep := some { call := false, fn := none } }
+      | some _ => sl),
+    linked := true }
+
+/-- `connect()` appends: the new cell (fresh id `s.next`) is the last element of that list, the
+    others keep their order; no other list changes -/
+theorem connect_appends (s : St) (i : Nat) (im : Impl) (sl : SlotB) (hi : aget s.impls i = some im) :
+    (insertCell s i false sl).2 = s.next ∧
+    ∃ c : Cell, c.id = s.next ∧ c.linked = true ∧
+      aget (insertCell s i false sl).1.impls i = some { im with cells := im.cells ++ [c] } ∧
+      ∀ k, k ≠ i → aget (insertCell s i false sl).1.impls k = aget s.impls k := by
+  refine ⟨by simp [insertCell, St.fresh, hi], newCell s sl, rfl, rfl, ?_, ?_⟩
+  · cases hr : sl.rep <;> simp [insertCell, St.fresh, hi, setImpl, newCell, hr]
+  · intro k hk
+    simp only [insertCell, St.fresh, hi, setImpl]
+    exact aget_aset_other _ _ _ _ hk
+
+/-- `connect_first()` prepends -/
+theorem connect_first_prepends (s : St) (i : Nat) (im : Impl) (sl : SlotB) (hi : aget s.impls i = some im) :
+    ∃ c : Cell, c.id = s.next ∧ c.linked = true ∧
+      aget (insertCell s i true sl).1.impls i = some { im with cells := c :: im.cells } ∧
+      ∀ k, k ≠ i → aget (insertCell s i true sl).1.impls k = aget s.impls k := by
+  refine ⟨newCell s sl, rfl, rfl, ?_, ?_⟩
+  · cases hr : sl.rep <;> simp [insertCell, St.fresh, hi, setImpl, newCell, hr]
+  · intro k hk
+    simp only [insertCell, St.fresh, hi, setImpl]
+    exact aget_aset_other _ _ _ _ hk
+
+/-- a connected slot always has a representation (the dummy one if the slot was empty), so an end
+    marker (a cell without representation) is never confused with a connected slot -/
+theorem connected_cell_has_rep (s : St) (i : Nat) (first : Bool) (im : Impl) (sl : SlotB)
+    (hi : aget s.impls i = some im) :
+    ∃ im' c, aget (insertCell s i first sl).1.impls i = some im' ∧ c ∈ im'.cells ∧ c.id = s.next ∧ c.slot.rep.isSome := by
+  cases first <;> cases hr : sl.rep <;>
+    simp [insertCell, St.fresh, hi, setImpl, hr]
+
+/-- one step of the non-accumulating emitter: a cell that is valid and unblocked at its turn is
+    invoked with the emitted argument (the loop continues with the functor's result), for every program -/
+theorem emitLoop_invokes_callable (f : Nat) (P : Prog) (s : St) (i cur m arg r : Nat) (im : Impl) (c : Cell) (fn : Fun)
+    (hne : cur ≠ m) (hi : aget s.impls i = some im) (hc : im.cells.find? (·.id = cur) = some c)
+    (hb : c.slot.blocked = false) (hrep : c.slot.rep = some { call := true, fn := some fn }) :
+    emitLoop (f+1) P s i cur m arg r =
+      (match invokeFun f P s fn arg with
+       | none => none
+       | some (s, .exc, v) => some (s, .exc, v)
+       | some (s, .ok, v) =>
+         match aget s.impls i with
+         | none => some (s.fail "loop: impl destroyed", .ok, v)
+         | some im2 =>
+           match succId im2.cells cur with
+           | none => some (s.fail "loop: iterator invalidated", .ok, v)
+           | some nxt => emitLoop f P s i nxt m arg v) := by
+  rw [emitLoop]
+  simp only [hne, if_false, hi, hc, hrep, hb]
+  rfl
+
+/-- … and a cell that is empty, invalidated, or an end marker is not invoked -/
+theorem emitLoop_skips_invalid (f : Nat) (P : Prog) (s : St) (i cur m arg r : Nat) (im : Impl) (c : Cell)
+    (hne : cur ≠ m) (hi : aget s.impls i = some im) (hc : im.cells.find? (·.id = cur) = some c)
+    (he : c.slot.empty = true) (nxt : Nat) (hn : succId im.cells cur = some nxt) :
+    emitLoop (f+1) P s i cur m arg r = emitLoop f P s i nxt m arg r := by
+  rw [emitLoop]
+  simp only [hne, if_false, hi, hc]
+  unfold SlotB.empty at he
+  cases hrep : c.slot.rep with
+  | none => simp [hi, hn]
+  | some rp =>
+    rw [hrep] at he
+    obtain ⟨call, fn⟩ := rp
+    have : call = false := by simpa using he
+    subst this
+    simp [hi, hn]
+
+example : ∃ c : Cell, aget (insertCell { impls := [(5, { cells := [{ id := 1, slot := {}, linked := true }] })], next := 9 } 5 false {}).1.impls 5
+    = some { cells := [{ id := 1, slot := {}, linked := true }, c] } := by
+  exact ⟨{ id := 9, slot := { rep := some { call := false, fn := none } }, linked := true },
+         by simp [insertCell, St.fresh, aget, setImpl, aset]⟩
+
 end Sigc.C01
